@@ -171,6 +171,14 @@ def ev(I, n: ast.AST, st: State) -> Iterator[tuple[State, Any]]:
                     yield s3, vs
                     continue
                 if not all(_hashable_const(k) for k in ks):
+                    # one symbolic string key (and nothing else): the same representation as a store under a symbolic
+                    # key into an empty dict - recorded in sym_pairs, open for every other operation
+                    if len(ks) == 1 and V.is_z3(ks[0]) and ks[0].sort() == z3.StringSort():
+                        d = SDict({})
+                        d.sym_pairs = [(ks[0], vs[0])]
+                        d.open = True
+                        yield s3, d
+                        continue
                     raise OutsideSubset("dict literal with symbolic keys")
                 yield s3, SDict(dict(zip(ks, vs)))
         return
